@@ -205,7 +205,7 @@ def run_cases(report: Report, modname: str, cases, jobs=None, chunk=None):
             for idx, r in _work(c):
                 results[idx] = r
     else:
-        ctx = mp.get_context("fork")
+        ctx = mp.get_context("spawn")  # parents may already hold polars/BLAS threads: never fork
         with ctx.Pool(jobs, initializer=_init_worker, initargs=(modname,)) as pool:
             for out in pool.imap_unordered(_work, chunks):
                 for idx, r in out:
